@@ -1,16 +1,20 @@
 (* C12 — restoring a backup reproduces the collection as of that backup.
    Statements only; proofs in Proofs/BackupProofs.v over Model/Backup.v (a line-by-line model of
-   engine/src/backup.rs).  `recovery_view` is exactly what HnswBackend::recover reads from a directory
-   (MANIFEST, the snapshot it names, the segments it lists): equal views = identical recovery input,
-   so "the restored directory reproduces the collection" is `recovery_view restored = recovery_view source`.
+   engine/src/backup.rs as of /repo 0a20737).  `recovery_view` is exactly what HnswBackend::recover reads
+   from a directory (MANIFEST, the snapshot it names, the segments it lists): equal views = identical
+   recovery input, so "the restored directory reproduces the collection" is
+   `recovery_view restored = recovery_view source`.
 
    Premises made explicit in the statements (validated on the real engine's directories every run by
-   the harness, which evaluates wf_sdirb / evolvesb on them inside coqc):
-     wf_sdir d m : quiescent engine directory (unique names, MANIFEST lists exactly the on-disk
-                   segments in increasing id order, the snapshot it names exists);
-     evolves     : segments not selected by an incremental are unchanged since its parent.
-   Two classes are refuted on the faithful model (witness theorems below) and are the recorded
-   classes of KnownC12. *)
+   the harness, which evaluates wf_sdirb / evolvesb / snap_stableb on them inside coqc):
+     wf_sdir d m  : quiescent engine directory (unique names, MANIFEST lists exactly the on-disk
+                    segments in increasing id order, the snapshot it names exists);
+     evolves      : segments not selected by an incremental are unchanged since its parent;
+     snaps_agree  : a snapshot name denotes one content (snapshots are written once, fresh ids).
+   The only class left outside the exactness theorem is KnownC12 = a chain member's metadata is missing
+   from the backup directory at restore time (removed by hand: prune can no longer cause it).
+   The two defects repaired in /repo (b41f57f, 0a20737) are kept as Examples on copies of the old
+   functions. *)
 From Coq Require Import List NArith Bool Sorted.
 From Kyro Require Import Model.Backup Proofs.BackupProofs.
 Import ListNotations.
@@ -26,49 +30,36 @@ Theorem C12_full_restore_exact : forall d m id ts aux o,
             restorable (view_files d m) = true.
 Proof. exact full_restore_exact. Qed.
 
-(* Incremental chains, outside the two recorded classes. *)
-Theorem C12_chain_restore_exact : forall st rch bf tip d m o,
-  chain_ok rch bf d m -> hd_error rch = Some tip ->
+(* Incremental chains of any length. *)
+Theorem C12_chain_restore_exact : forall sc st rch tip d m o,
+  chain_ok sc rch d m -> hd_error rch = Some tip ->
   NoDup (map b_id rch) -> store_sub st rch -> o_dry o = false ->
-  ~ KnownC12 st rch bf d m ->
+  ~ KnownC12 st rch ->
   exists t', restore_by_id st [] (b_id tip) o = (None, t') /\
              recovery_view t' = recovery_view (strip d) /\ restorable t' = true.
 Proof. exact chain_restore_exact. Qed.
 
-(* ... in particular for the store left by any prune. *)
-Theorem C12_chain_restore_exact_after_prune : forall now p st rch bf tip d m o,
-  chain_ok rch bf d m -> hd_error rch = Some tip -> NoDup (map b_id rch) -> NoDup (map b_id st) ->
+(* Chain invariant: the chain up to any backup contains the snapshot that backup's manifest names. *)
+Theorem C12_chain_contains_manifest_snapshot : forall sc rch d m s,
+  chain_ok sc rch d m -> m_snap m = Some s ->
+  tget (extract_chain [] (rev rch)) (FSnap s) = option_map fst (sget d (FSnap s)) /\
+  (exists c mt, sget d (FSnap s) = Some (c, mt) /\ exists b, In b rch /\ In (FSnap s, c) (b_files b)).
+Proof. exact chain_contains_manifest_snapshot. Qed.
+
+(* Pruning never removes a backup that a retained backup depends on ... *)
+Theorem C12_prune_keeps_parents : forall now p st b pid y,
+  NoDup (map b_id st) -> In b (prune_store now p st) -> b_parent b = Some pid ->
+  In y st -> b_id y = pid -> In y (prune_store now p st).
+Proof. exact prune_keeps_parents. Qed.
+
+(* ... so after ANY prune every retained member of a chain still restores exactly (no exception). *)
+Theorem C12_chain_restore_exact_after_prune : forall sc now p st rch tip d m o,
+  chain_ok sc rch d m -> hd_error rch = Some tip -> NoDup (map b_id rch) -> NoDup (map b_id st) ->
   (forall b, In b rch -> find_b st (b_id b) = Some b) -> o_dry o = false ->
-  ~ KnownC12 (prune_store now p st) rch bf d m ->
+  In tip (prune_store now p st) ->
   exists t', restore_by_id (prune_store now p st) [] (b_id tip) o = (None, t') /\
              recovery_view t' = recovery_view (strip d) /\ restorable t' = true.
 Proof. exact chain_restore_exact_after_prune. Qed.
-
-(* Recorded class (8b): the restore of a fully verified chain succeeds and is not recoverable. *)
-Theorem C12_incremental_after_snapshot_refuted :
-  exists st rch bf tip d m o,
-    chain_ok rch bf d m /\ hd_error rch = Some tip /\ NoDup (map b_id rch) /\ store_sub st rch /\
-    o_dry o = false /\ snapshot_not_in_chain bf d m /\ ~ ancestor_missing st rch /\
-    exists t', restore_by_id st [] (b_id tip) o = (None, t') /\
-               restorable t' = false /\ recovery_view t' <> recovery_view (strip d).
-Proof. exact incremental_after_snapshot_refuted. Qed.
-
-(* Recorded class (8a): prune keeps an incremental and deletes its parent; the kept backup cannot be restored. *)
-Theorem C12_prune_parent_refuted :
-  exists now p st rch bf tip d m o,
-    chain_ok rch bf d m /\ hd_error rch = Some tip /\ NoDup (map b_id st) /\
-    (forall b, In b rch -> find_b st (b_id b) = Some b) /\
-    In tip (prune_store now p st) /\
-    (exists pid, b_parent tip = Some pid /\ find_b (prune_store now p st) pid = None) /\
-    ancestor_missing (prune_store now p st) rch /\
-    restore_by_id (prune_store now p st) [] (b_id tip) o = (Some EParentNotFound, []).
-Proof. exact prune_parent_refuted. Qed.
-
-(* "Pruning never removes a backup that a retained backup depends on" does NOT hold of prune_backups. *)
-Theorem C12_prune_keeps_parents_refuted :
-  ~ (forall now p st b pid, NoDup (map b_id st) -> In b (prune_store now p st) ->
-       b_parent b = Some pid -> find_b st pid <> None -> find_b (prune_store now p st) pid <> None).
-Proof. exact prune_keeps_parents_refuted. Qed.
 
 (* Prune never invents backups: the deleted ids and the retained store are duplicate-free subsets. *)
 Theorem C12_prune_subset : forall now p st,
@@ -129,24 +120,57 @@ Proof.
   - apply metadata_irrelevant_pitr; exact H.
 Qed.
 
-(* Non-vacuity: a three-member chain (full, incremental, incremental after a rotation) satisfies every
-   premise of C12_chain_restore_exact, is outside KnownC12, and restores to the source's view. *)
+(* The two repaired defects, on copies of the OLD functions, and the same inputs on the current model. *)
+Example C12_old_incremental_after_snapshot_witness :
+  create_full w_d0 1 60 0 = Ok w_b1 /\
+  create_incr_files_old w_d1 60 (Some 10) = Ok (b_files w_b2_old, Some 10, None) /\
+  exists t', restore_by_id [w_b1; w_b2_old] [] 2 opts_plain = (None, t') /\
+             restorable t' = false /\ recovery_view t' <> recovery_view (strip w_d1).
+Proof. exact old_incremental_after_snapshot. Qed.
+
+Example C12_incremental_after_snapshot_now_exact :
+  create_incremental [w_b1] w_d1 1 2 80 0 = Ok w_b2 /\
+  restore_by_id [w_b1; w_b2] [] 2 opts_plain =
+    (None, [(FManifest, CMan w_m1); (FWal 10, CBlob 101); (FSnap 70, CBlob 200)]) /\
+  recovery_view (snd (restore_by_id [w_b1; w_b2] [] 2 opts_plain)) = recovery_view (strip w_d1) /\
+  recovery_view (strip w_d1) = Some (w_m1, Some (CBlob 200), [CBlob 101]).
+Proof. exact incremental_after_snapshot_now_exact. Qed.
+
+Example C12_old_prune_parent_witness :
+  prune_store_old 1000 default_policy [w_b2; w_b1] = [w_b2] /\
+  restore_by_id (prune_store_old 1000 default_policy [w_b2; w_b1]) [] 2 opts_plain = (Some EParentNotFound, []) /\
+  prune_store 1000 default_policy [w_b2; w_b1] = [w_b2; w_b1] /\
+  fst (restore_by_id (prune_store 1000 default_policy [w_b2; w_b1]) [] 2 opts_plain) = None.
+Proof. exact old_prune_deleted_parent. Qed.
+
+(* KnownC12 is inhabited only by outside interference: the parent's metadata removed by hand. *)
+Example C12_ancestor_removed_by_hand :
+  KnownC12 [w_b2] [w_b2; w_b1] /\ restore_by_id [w_b2] [] 2 opts_plain = (Some EParentNotFound, []).
+Proof. exact ancestor_removed_by_hand. Qed.
+
+(* Non-vacuity: a four-member chain (full, incremental, incremental after a NEW snapshot and a rotation,
+   incremental whose snapshot is found two levels up by the metadata walk) satisfies every premise,
+   restores to the source's view, and survives the default prune entirely; and prune still deletes
+   backups no survivor depends on. *)
 Example C12_nonvacuous :
-  let st := [n_b1; n_b2; n_b3] in let rch := [n_b3; n_b2; n_b1] in
-  chain_ok rch n_b1 n_d2 n_m2 /\ NoDup (map b_id rch) /\ store_sub st rch /\
-  ~ KnownC12 st rch n_b1 n_d2 n_m2 /\
-  restore_by_id st [] 3 opts_plain =
-    (None, [(FSnap 5, CBlob 300); (FManifest, CMan n_m2); (FWal 10, CBlob 102); (FWal 20, CBlob 400)]) /\
-  recovery_view (snd (restore_by_id st [] 3 opts_plain)) = recovery_view (strip n_d2) /\
-  recovery_view (strip n_d2) = Some (n_m2, Some (CBlob 300), [CBlob 102; CBlob 400]).
+  let st := [n_b1; n_b2; n_b3; n_b4] in let rch := [n_b4; n_b3; n_b2; n_b1] in
+  chain_ok n_sc rch n_d3 n_m2 /\ NoDup (map b_id rch) /\ store_sub st rch /\ ~ KnownC12 st rch /\
+  restore_by_id st [] 4 opts_plain =
+    (None, [(FSnap 5, CBlob 300); (FManifest, CMan n_m2); (FWal 10, CBlob 102); (FSnap 7, CBlob 301); (FWal 20, CBlob 401)]) /\
+  recovery_view (snd (restore_by_id st [] 4 opts_plain)) = recovery_view (strip n_d3) /\
+  recovery_view (strip n_d3) = Some (n_m2, Some (CBlob 301), [CBlob 102; CBlob 401]) /\
+  In n_b4 (prune_store 1000 default_policy st) /\ prune_store 1000 default_policy st = st.
 Proof. exact chain_nonvacuous. Qed.
+
+Example C12_prune_still_prunes :
+  prune_deleted 1000 default_policy (list_backups [w_b1; w_b2; p_b3]) = [2; 1].
+Proof. exact prune_still_prunes. Qed.
 
 Print Assumptions C12_full_restore_exact.
 Print Assumptions C12_chain_restore_exact.
+Print Assumptions C12_chain_contains_manifest_snapshot.
+Print Assumptions C12_prune_keeps_parents.
 Print Assumptions C12_chain_restore_exact_after_prune.
-Print Assumptions C12_incremental_after_snapshot_refuted.
-Print Assumptions C12_prune_parent_refuted.
-Print Assumptions C12_prune_keeps_parents_refuted.
 Print Assumptions C12_prune_subset.
 Print Assumptions C12_tamper_rejected_before_clear.
 Print Assumptions C12_no_clear_without_confirmation.
